@@ -63,6 +63,10 @@ class C18(Prop):
         else:
             add(big_script("body", 1200), "limits-body")
             add(big_script("consts", 300), "limits-consts")
+            # just over the 16-bit limits: must be rejected by Prepare (or, if accepted, be well formed)
+            add(big_script("body", 7290), "limits-body")
+            add(big_script("ifbig", 7290), "limits-ifbig")
+            add(big_script("consts", 65540), "limits-consts")
         return out
 
     def in_class(self, klass, case):
